@@ -327,6 +327,15 @@ func runC18(c C18Case) (v vrt.Verdict) {
 	if msg := validateCase(c, td); msg != "" {
 		return vrt.Discardf("malformed case: %s", msg)
 	}
+	// Cases run sequentially and each one ends with cancel + waiting for its
+	// library goroutines to exit.  Should some of an earlier case still be
+	// alive AND runnable, they could call Verify into this case's recorder:
+	// wait for them, and do not judge this case if they do not go away.
+	if total, _ := libGoroutines(); total != 0 {
+		if !waitLibGone(10*time.Second) && !allParked3() {
+			return vrt.Discardf("inconclusive: library goroutines of an earlier case are still running")
+		}
+	}
 	bubble := !c.Watch && !c.NoBubble && c18T != nil
 	if !bubble {
 		return dispatch(c, td, false)
